@@ -262,6 +262,8 @@ def oracle(case, res):
             stats["shared_counter"] = 1
         if lost and modes == {"fast"}:
             stats["fast_lost_update"] = 1
+        if lost and len(modes) == 1 and modes <= {"locked", "serializable"} and not all_within:
+            stats["lost_update_beyond_timeout"] = 1
         if len(modes) == 1 and modes <= {"locked", "serializable"} and all_within and lost:
             bad.append(("no_lost_increments", f"counter k{k}: init {init} + committed increments {total} != final {final}"))
     # ---- write phases (lock held) never overlap: globally in serializable mode, per key in locked mode
@@ -284,6 +286,14 @@ def oracle(case, res):
                     for s in spans.get("(any)" if serial else name, []):
                         if s[0] == tid and (s[2] is None or serial):
                             s[2] = g
+        # the store is written only inside a write phase: a commit command of a locked / serializable transaction is issued
+        # while it holds a lock
+        for tid in txs:
+            mine = [s for ss in spans.values() for s in ss if s[0] == tid]
+            for lab, _, _, _, _, g in steps[tid]:
+                if lab.startswith(("set_many:", "delete_many:")) and not any(s[1] < g and (s[2] is None or g < s[2]) for s in mine):
+                    bad.append(("write_phases_disjoint", f"task {tid} issued {lab} at step {g} outside any write phase "
+                                                         f"(it held no lock; mode {sorted(modes)[0]})"))
         for name, ss in spans.items():
             ss = sorted(ss, key=lambda s: s[1])
             for a, b in zip(ss, ss[1:]):
@@ -316,8 +326,6 @@ def oracle(case, res):
             if a < b and (progs[a]["mode"], progs[a]["timeout"]) == (progs[b]["mode"], progs[b]["timeout"]) and steps[a] and steps[b]:
                 if steps[a][0][5] < steps[b][-1][5] and steps[b][0][5] < steps[a][-1][5]:
                     stats["one_decorated_function_overlapping_calls"] = 1
-    if not all_within and any(s for s in stats if s == "lock_handover"):
-        stats["lease_stolen_or_expired"] = 1
     return bad, stats
 
 
@@ -501,12 +509,15 @@ def exhaustive_families():
         fams.append((f"{mode}: decorated call, a call nesting the same decorator, a plain writer",
                      {0: 5}, [tx(mode, [["set", 1, 1], ["incr", 0, 2]], "dec", 40),
                               tx(mode, [["nin", "dec"], ["incr", 0, 1], ["nout"], ["get", 1]], "dec", 40),
-                              plain([["set", 2, 9], ["get", 0]])], False))
+                              plain([["set", 2, 9], ["get", 0]])], mode == "fast"))
     fams.append(("locked: opposite lock order with a short timeout (deadlock broken by LockedError)",
                  {}, [tx("locked", [["incr", 0, 1], ["incr", 1, 1]], "dec", 20), tx("locked", [["incr", 1, 1], ["incr", 0, 1]], "dec", 20)], True))
     fams.append(("serializable: holder sleeps past a short timeout (lease expires)",
                  {}, [tx("serializable", [["incr", 0, 1], ["sleep", 8], ["incr", 0, 1]], "ctx", 20),
                       tx("serializable", [["incr", 0, 1]], "dec", 20)], True))
+    fams.append(("serializable: a late-comer takes over the expired lease of a sleeping holder (beyond the timeout: an increment is lost)",
+                 {}, [tx("serializable", [["incr", 0, 1], ["sleep", 8], ["incr", 0, 1]], "ctx", 20),
+                      tx("serializable", [["sleep", 4], ["incr", 0, 1]], "dec", 40)], True))
     fams.append(("locked: three calls of one decorated function on one counter",
                  {0: 1}, [tx("locked", [["incr", 0, 1]], "dec", 40), tx("locked", [["incr", 0, 2]], "dec", 40),
                           tx("locked", [["incr", 0, 4]], "dec", 40)], False))
@@ -669,7 +680,7 @@ def run(chk: Check) -> int:
         exhaustive.append({"family": title, "schedules": count, "complete": complete})
 
     # 3. sampled programs x sampled schedules
-    n = chk.budget(700, 40000)
+    n = chk.budget(2500, 40000)
     ntasks = 4
     i = 0
     while i < n and found < MAXFOUND:
